@@ -298,3 +298,93 @@ def c20(r):
                 return True
         return False
     r.negctl("Trace_Civil", ch[0], {"C20Year": [(setz, "C20.zodiac"), (addf, "C20.festivals"), (dropf, "C20.festivals"), (dropo, "C20.otherFestivals")]}, per_kind=2)
+
+
+# ------------------------------------------------------------ lunar family
+def lunar_model(r, want_op):
+    """dump the window tables from the current tree, model-check MC_Lunar on them,
+    export its edges and replay those with the wanted action on real objects"""
+    tabs = r.drive("tables", shards=1, maxlines=0, label="tables")
+    env = {"TABLES": tabs[0]}
+    rc_info, out = r.mc("MC_Lunar", "MC_Lunar", expect_ok=False, env=env)
+    if not rc_info["ok"]:
+        # the tables come from the code: a violated invariant is a property violation of the current tree
+        m = re.search(r"Invariant (\w+) is violated", out)
+        name = m.group(1) if m else "unknown"
+        st = out[out.find("Error:"):][:1500]
+        r.rejects.append({"name": "%s.model.%s" % (r.pid, name), "line": 0, "key": re.sub(r"\s+", " ", st)[:400], "chunk": tabs[0]})
+        return []
+    edges = r.export_edges("MC_Lunar", "MBT_Lunar", env=env)
+    lines = [x for x in edges_to_tsv(edges) if x.startswith(want_op)]
+    tsv = os.path.join(r.dir, "ledges.tsv")
+    write_lines(tsv, lines)
+    r.cov["replayed_edges"] = len(lines)
+    ch = r.drive("lunaredges", args={"edges": tsv}, maxlines=40000)
+    r.validate("Trace_Lunar", ch)
+    return ch
+
+
+@plan("C06", "model_checking")
+def c06(r):
+    thorough = r.tier == "thorough"
+    r.rule = ("Month tables of windows of years are dumped from the current tree; TLC model-checks MC_Lunar on them (cursor over "
+              "the global month chain: well-formedness, neighbour agreement, contiguity, civil->lunar lookup = chain position) and "
+              "every MonthNext(n), n in -14..14, edge of its state graph is executed on real LunarMonth objects. One frame per lunar "
+              "year (%s): the year's table, both neighbours' tables, GetLeapMonth/GetDayCount/GetMonthsInYear/GetMonth/"
+              "NewLunarMonthFromYm for every signed month, LunarMonth.Next(n) from every month for n in {0,+-1,+-2,+-12,+-13,+-14,+-25,+-40} "
+              "with the way back and the same move made one month at a time, New Year's Eve + 1. "
+              "Distinct non-trivial case = distinct lunar year frame or distinct (month, n) edge." %
+              ("every lunar year 1..9997" if thorough else "300 seeded + 50 boundary years"))
+    r.assumptions += ["years 8..23 and 236..240 are exempt in every clause, as the statement says",
+                      "the model's tables are the code's own tables (their astronomical truth is C02)"]
+    r.build()
+    ch_e = lunar_model(r, "MonthNext")
+    ch = r.drive("c06years", args={"years": 300}, maxlines=120)
+    r.validate("Trace_Lunar", ch)
+    r.sample_from(ch[:1] + ch_e[:1])
+    r.cov["samples"] = [s[:500] for s in r.cov["samples"]]
+    r.count_distinct(ch + ch_e, lambda e: ("y", e["y"]) if e.get("ev") == "C06Year" else ("e", tuple(e["from"]), e["n"]))
+    def ok(e):
+        return e["p"] == 0 and not (5 <= e["y"] <= 26 or 233 <= e["y"] <= 243)
+    def swap_len(e):
+        if not ok(e): return False
+        e["t"][3][2] = 31
+        return True
+    def shift(e):
+        if not ok(e): return False
+        e["t"][5][3] += 1
+        return True
+    def leap(e):
+        if not ok(e): return False
+        e["leap"] = 7 if e["leap"] != 7 else 6
+        return True
+    def navres(e):
+        if not ok(e): return False
+        for nv in e["nav"]:
+            for row in nv["r"]:
+                if row[0] == 1 and row[1] == 0:
+                    row[5] = row[5] + 1 if row[5] < 12 else 1
+                    return True
+        return False
+    def navback(e):
+        if not ok(e): return False
+        for nv in e["nav"]:
+            for row in nv["r"]:
+                if row[0] == 13 and row[1] == 0:
+                    row[11] += 1
+                    return True
+        return False
+    def eve(e):
+        if not ok(e) or e["eve"]["p"] != 0: return False
+        e["eve"]["next"] = [e["y"] + 1, 1, 2]
+        return True
+    def tn(e):
+        if not ok(e): return False
+        e["tn"][2][2] = 59 - e["tn"][2][2]
+        return True
+    r.negctl("Trace_Lunar", ch[0], {"C06Year": [
+        (swap_len, "C06.months.length29or30"), (shift, "C06.months.contiguous"), (leap, "C06.year.leapMonth"),
+        (navres, "C06.next.successor"), (navback, "C06.next.back"), (eve, "C06.eve.next-is-new-year"), (tn, "C06.neighbours.agree"),
+        (lambda e: ok(e) and bump(["days"])(e), "C06.year.dayCount")]}, per_kind=1)
+    if ch_e:
+        r.negctl("Trace_Lunar", ch_e[0], {"LunarEdge": [(lambda e: e["p"] == 0 and bump(["res", 3])(e), "C06.edge.MonthNext")]})
